@@ -72,6 +72,35 @@ def run_cab(code, mode):
         return "err other"
 
 
+def run_cabn(code, k, n):
+    """a download of n bytes without declared size through the file interface against a conformant server whose
+    answer to request number k is replaced by an abort frame with `code`"""
+    from canopen.sdo.client import SdoClient
+    from canopen.sdo.exceptions import SdoCommunicationError
+    from props import c01
+    server = c01.RefServer({}, True, True, True, [])
+    client = SdoClient(0x602, 0x582, canopen.ObjectDictionary())
+    client.RESPONSE_TIMEOUT = 0.001
+    count = [0]
+
+    def wrap(req, rs):
+        i = count[0]
+        count[0] += 1
+        return [bytes([0x80, 0x00, 0x20, 0x00]) + code.to_bytes(4, "little")] if i == k else rs
+    client.network = c01.Bus(client, server, wrap)
+    data = bytes((i * 7 + 1) % 256 for i in range(n))
+    try:
+        with client.open(0x2000, 0, "wb") as fp:
+            fp.write(data)
+        return "ok"
+    except SdoAbortedError as e:
+        return f"err aborted {e.code}"
+    except SdoCommunicationError:
+        return "err comm"
+    except Exception:
+        return "err other"
+
+
 def run_cbref(a):
     """`cbref <od> <idx> <sub> <hex> <expedited> <code>`: the application's write callback refuses the download
     by raising SdoAbortedError(code) → `result | store | readback`"""
@@ -95,6 +124,8 @@ def run_impl(op):
         return run_cab(int(a[1]), a[2])
     if a[0] == "cbref":
         return run_cbref(a)
+    if a[0] == "cabn":
+        return run_cabn(int(a[1]), int(a[2]), int(a[3]))
     if a[0] == "srvx":
         return _run_impl2(" ".join(["srv"] + a[1:4]))
     return _run_impl2(op)
@@ -105,6 +136,15 @@ def oracle(op, out):
     if a[0] == "cab":
         exp = f"err aborted {int(a[1])}"
         return None if out == exp else f"abort frame with code {int(a[1]):#010x}: the client API gave {out}, expected {exp}"
+    if a[0] == "cabn":
+        code, k, n = int(a[1]), int(a[2]), int(a[3])
+        nreq = 1 + (n + 6) // 7 + (1 if n % 7 == 0 or True else 0)      # initiate, segments, closing empty segment
+        nreq = 1 + (n + 6) // 7 + 1
+        if k < nreq:
+            exp = f"err aborted {code}"
+            return None if out == exp else (f"cabn: the answer to request {k} of an unsized {n}-byte download was "
+                                            f"abort {code:#010x}; the client API gave {out}, expected {exp}")
+        return None if out == "ok" else f"cabn: undisturbed unsized download gave {out}"
     if a[0] == "cbref":
         entries = parse_od(a[1])
         idx, sub, code = int(a[2]), int(a[3]), int(a[6])
@@ -141,7 +181,7 @@ def oracle(op, out):
 
 
 def signature(op, what):
-    if op.startswith(("cab ", "cbref ")):
+    if op.startswith(("cab ", "cbref ", "cabn ")):
         return op.split(" ")[0] + ":" + what.split(" ")[0]
     return c02.signature(op, what)
 
@@ -151,13 +191,13 @@ def nontrivial(op, out):
 
 
 def classify(op, out):
-    if op.startswith(("cab ", "cbref ")):
+    if op.startswith(("cab ", "cbref ", "cabn ")):
         return op.split(" ")[0]
     return c02.classify(op, out)
 
 
 def shrink_candidates(op):
-    if op.startswith(("cab ", "cbref ")):
+    if op.startswith(("cab ", "cbref ", "cabn ")):
         return []
     return c02.shrink_candidates(op)
 
@@ -208,6 +248,11 @@ def gen_ops(tier, rng):
     for code in codes:
         for mode in "ues":
             yield f"cab {code} {mode}"
+    # downloads without declared size through the file interface, refused at every step incl. the closing segment
+    for n in (0, 1, 6, 7, 8, 14, 20):
+        nreq = 1 + (n + 6) // 7 + 1
+        for k in range(nreq + 1):
+            yield f"cabn {rng.choice([0x06010002, 0x06070010, 0x06020000, 0x80000000 | rng.getrandbits(31)])} {k} {n}"
     # a write callback of the application refuses the download: abort with its code, nothing stored
     for t in (0x05, 0x06, 0x07, 0x0A, 0x0F):
         w = NUMBER_W.get(t, 0) // 8
